@@ -260,10 +260,16 @@ def gen_header(rng, chk, names):
             n = n + str(rng.randrange(1000)).encode()
         if rng.random() < 0.1:
             n = fix_ends(rng, rand_bytes(rng, rng.randrange(1, 10), {0, 10, 93}), set(), {0, 10, 93})
-        if names and rng.random() < 0.15:
+        if names and rng.random() < 0.1:
+            n = rng.choice(sorted(names))
+        elif names and rng.random() < 0.15:
             n = fix_ends(rng, bytes(c for c in variant(rng, rng.choice(sorted(names))) if c not in (0, 10, 93)), set(), {0, 10, 93})
             chk.bump("header:variant-of-another")
         if n not in names:
+            break
+        if rng.random() < 0.5:
+            # a repeated header starts a section of its own; look-ups by name see one of them (IniSpec.seenSec)
+            chk.bump("header:repeated-name")
             break
     names.add(n)
     lead, pre, post, trail = blanks(rng, 0.15), blanks(rng, 0.2, 2), blanks(rng, 0.2, 2), blanks(rng, 0.2)
@@ -823,6 +829,14 @@ def directed_cases():
                     E(b"q", b" a b ", "d"), E(b"r", b"\t", "s"), E(b"t", b" ; # = ", "d"), E(b"u", b"a=b=c"), EC(b"w", b"x = 'y'", "n", b" ", b" ", 59, b"z"),
                     H(b"only-empty"), E(b"a", b""), EC(b"b", b"", "n", b" ", b" ", 35, b" c")],
                    ["gget %s %s 64 -7 %d %s" % (hx(a), hx(b), bd, z) for a in (b"s", b"only-empty") for b in (b"k", b"e", b"c", b"d", b"q", b"r", b"t", b"u", b"w", b"a", b"b") for bd in (0, 1)]))
+    # repeated section headers: not merged, listed once each, look-ups see the first one in look-up order
+    # (sections before the final one, latest first, then the final one)
+    rep = ["gget %s %s 64 -7 0 %s" % (hx(a), hx(b), z) for a in (b"a", b"b") for b in (b"k", b"j", b"x")]
+    out.append(doc([H(b"a"), E(b"k", b"1"), H(b"b"), E(b"x", b"1"), H(b"a"), E(b"j", b"2")], rep))
+    out.append(doc([H(b"a"), E(b"k", b"1"), H(b"a"), E(b"k", b"2"), E(b"j", b"3"), H(b"b"), E(b"x", b"1")], rep))
+    out.append(doc([H(b"a"), H(b"a"), E(b"k", b"1"), H(b"a")], rep))
+    out.append(doc([H(b"a"), E(b"k", b"1"), H(b"a"), E(b"k", b""), H(b"a"), E(b"j", b"2"), H(b"a")], rep))
+    out.append(doc([H(b"a"), E(b"k", b"1"), H(b"b"), E(b"x", b"1"), H(b"a"), E(b"k", b"2"), H(b"b"), E(b"x", b"2"), H(b"a"), E(b"k", b"3")], rep))
     # list values at the sizes of the item buffer, many items, white space other than SP/HT
     for v in (b"{" + b"x" * 1000 + b"}", b"{" + b" ".join([b"i"] * 400) + b"}", b"{a\x0bb\x0cc\rd}", b"{a}", b"{ a }", b"{a b}x}", b"{{}"):
         out.append(doc([H(b"s"), E(b"l", v)], ["gget 73 6c NULL 0 0 %s" % z]))
@@ -924,6 +938,6 @@ def run(chk):
         "the file is read back exactly as written (regular file on a local file system, fopen \"r\" does no translation on POSIX)",
         "allocation never fails in this check (C18 covers failure)",
         "fopen (directory, \"r\") succeeds and the first fgets on it fails (Linux/glibc): a directory parses as an empty file (op lifec, segment D)",
-        "the spec column is produced for documents satisfying PV.IniSpec.WF only: distinct section names, no NUL, lines <= 1024 bytes, no line that starts like a byte-order mark",
+        "the spec column is produced for documents satisfying PV.IniSpec.WF only: no NUL, lines <= 1024 bytes, no line that starts like a byte-order mark",
     ]
     return finish(chk)
